@@ -26,9 +26,21 @@ def run(tier, seed, replay=None):
     extra = universe.boundary_sources() + universe.name_sources()
     for i, (name, text) in enumerate(extra):
         for w in (60, 100) if tier == "quick" else (40, 60, 80, 100, 120):
-            se = RELEASED[(i + w) % 4]
+            se = RELEASED[(core.fnv(name.encode()) + w) % 4]
             pts.append((f"{name}@w={w},se={se},v0", name, text, {"max_width": w, "style_edition": se}))
     pts += universe.option_points(tier, seed)
+    # every option value x one instance of every template family x an old and the newest
+    # released style edition
+    for opt, vals in universe.OPTION_SWEEP:
+        for val in vals:
+            for (name, text) in universe.family_instances(f"{opt}={val}",
+                                                           per_family=0 if tier == "thorough" else 3):
+                h = core.fnv(f"{opt}={val}:{name}".encode())
+                for se in (("2015", "2021")[h % 2], "2024"):
+                    if tier == "quick" and (h + seed) % 4 and se != "2024":
+                        continue
+                    pts.append((f"{name}@w=100,se={se},opt.{opt}={val}", name, text,
+                                {"max_width": 100, "style_edition": se, opt: val}))
     jobs = []
     for (pid, name, text, opts) in pts:
         if opts["style_edition"] not in RELEASED:
